@@ -62,6 +62,11 @@ type ReplayFile struct {
 	Decoded  any             `json:"decoded,omitempty"`
 	Trace    []string        `json:"trace,omitempty"`
 	Note     string          `json:"note,omitempty"`
+	// RangeFrom, when present (and there is neither tape nor scenario), makes the
+	// replay execute the runs RangeFrom .. Index-1 of the seed first, in this
+	// process: a crash that needs the memory the earlier runs of its worker left
+	// behind (a library that writes outside its allocations) reproduces that way.
+	RangeFrom *uint64 `json:"range_from,omitempty"`
 }
 
 var mirrorBuf []byte
@@ -359,8 +364,15 @@ func doReplay(p *core.Property, path string, shrink bool, out string, budget int
 		same := func(r *core.Run) bool { return r.V != nil && r.V.Class == rf.Class && r.V.Key == rf.Key }
 		tp = minimise(tp, budget, func(c []uint32) bool { return same(runTape(p, &rf, c, false)) })
 	}
+	if rf.RangeFrom != nil && len(rf.Tape) == 0 && len(rf.Scenario) == 0 {
+		for idx := *rf.RangeFrom; idx < rf.Index; idx++ {
+			pre := rf
+			pre.Index = idx
+			runTape(p, &pre, nil, false)
+		}
+	}
 	r := runTape(p, &rf, tp, true)
-	res := ReplayFile{Property: p.ID, Seed: rf.Seed, Index: rf.Index, Tier: rf.Tier, Tape: r.T.Record(), Decoded: r.Sample, Trace: r.Trace}
+	res := ReplayFile{Property: p.ID, Seed: rf.Seed, Index: rf.Index, Tier: rf.Tier, Tape: r.T.Record(), Decoded: r.Sample, Trace: r.Trace, RangeFrom: rf.RangeFrom}
 	if r.V != nil {
 		res.Class, res.Key, res.Detail = r.V.Class, r.V.Key, r.V.Detail
 	}
